@@ -516,6 +516,12 @@ class MLock:
         saved, me.pending_exc = me.pending_exc, None
         try:
             while self._owner is not None:
+                if me.pending_exc is not None:
+                    # an interrupt delivered while this task was waiting here: re-acquiring the lock of a
+                    # condition is not interruptible (as in CPython); keep it pending for the way out
+                    if saved is None:
+                        saved = me.pending_exc
+                    me.pending_exc = None
                 self._waiters.append(me)
                 s.block(("lock", id(self)))
                 if me in self._waiters:
